@@ -139,6 +139,9 @@ func (k *Kernel) Stat(name string) {
 
 // Name canonicalises a raw identifier (uuid etc.) to kind+ordinal in order of first appearance.
 func (k *Kernel) Name(kind, raw string) string {
+	if raw == "" {
+		return ""
+	}
 	k.mu.Lock()
 	defer k.mu.Unlock()
 	if n, ok := k.names[raw]; ok {
@@ -158,7 +161,7 @@ func (k *Kernel) Canon(s string) string {
 	k.mu.Lock()
 	defer k.mu.Unlock()
 	for raw, n := range k.names {
-		if strings.Contains(s, raw) {
+		if raw != "" && strings.Contains(s, raw) {
 			s = strings.ReplaceAll(s, raw, n)
 		}
 	}
